@@ -3,6 +3,7 @@
 #define FILENAME(line) FILENAME_FOR_EXCEPTIONS("src/libawkward/forth/ForthOutputBuffer.cpp", line)
 
 #include <cmath>
+#include <cstring>
 
 #include "awkward/kernel-dispatch.h"
 
@@ -14,9 +15,11 @@ namespace awkward {
 
   void byteswap16(int64_t num_items, void* ptr) {
     while (num_items != 0) {
-      uint16_t value = *reinterpret_cast<uint16_t*>(ptr);
-      *reinterpret_cast<uint16_t*>(ptr) = ((value >> 8) & 0x00ff) |
-                                          ((value << 8) & 0xff00);
+      uint16_t value;
+      std::memcpy(&value, ptr, sizeof(uint16_t));
+      value = ((value >> 8) & 0x00ff) |
+              ((value << 8) & 0xff00);
+      std::memcpy(ptr, &value, sizeof(uint16_t));
       ptr = reinterpret_cast<void*>(reinterpret_cast<size_t>(ptr) + 2);
       num_items--;
     }
@@ -24,11 +27,13 @@ namespace awkward {
 
   void byteswap32(int64_t num_items, void* ptr) {
     while (num_items != 0) {
-      uint32_t value = *reinterpret_cast<uint32_t*>(ptr);
-      *reinterpret_cast<uint32_t*>(ptr) = ((value >> 24) & 0x000000ff) |
-                                          ((value >>  8) & 0x0000ff00) |
-                                          ((value <<  8) & 0x00ff0000) |
-                                          ((value << 24) & 0xff000000);
+      uint32_t value;
+      std::memcpy(&value, ptr, sizeof(uint32_t));
+      value = ((value >> 24) & 0x000000ff) |
+              ((value >>  8) & 0x0000ff00) |
+              ((value <<  8) & 0x00ff0000) |
+              ((value << 24) & 0xff000000);
+      std::memcpy(ptr, &value, sizeof(uint32_t));
       ptr = reinterpret_cast<void*>(reinterpret_cast<size_t>(ptr) + 4);
       num_items--;
     }
@@ -36,15 +41,17 @@ namespace awkward {
 
   void byteswap64(int64_t num_items, void* ptr) {
     while (num_items != 0) {
-      uint64_t value = *reinterpret_cast<uint64_t*>(ptr);
-      *reinterpret_cast<uint64_t*>(ptr) = ((value >> 56) & 0x00000000000000ff) |
-                                          ((value >> 40) & 0x000000000000ff00) |
-                                          ((value >> 24) & 0x0000000000ff0000) |
-                                          ((value >>  8) & 0x00000000ff000000) |
-                                          ((value <<  8) & 0x000000ff00000000) |
-                                          ((value << 24) & 0x0000ff0000000000) |
-                                          ((value << 40) & 0x00ff000000000000) |
-                                          ((value << 56) & 0xff00000000000000);
+      uint64_t value;
+      std::memcpy(&value, ptr, sizeof(uint64_t));
+      value = ((value >> 56) & 0x00000000000000ff) |
+              ((value >> 40) & 0x000000000000ff00) |
+              ((value >> 24) & 0x0000000000ff0000) |
+              ((value >>  8) & 0x00000000ff000000) |
+              ((value <<  8) & 0x000000ff00000000) |
+              ((value << 24) & 0x0000ff0000000000) |
+              ((value << 40) & 0x00ff000000000000) |
+              ((value << 56) & 0xff00000000000000);
+      std::memcpy(ptr, &value, sizeof(uint64_t));
       ptr = reinterpret_cast<void*>(reinterpret_cast<size_t>(ptr) + 8);
       num_items--;
     }
